@@ -117,6 +117,13 @@ type FnExec struct {
 	onStore  func(fx *FnExec, instr ssa.Instruction, pl *Place, v Val)
 	ghostTouch func(call ssa.CallInstruction) bool // does this call update a ghost? (nil = every call may)
 	rely       map[string]func(before, after string) string
+	private    []privateObj // fresh objects that never escape: unchanged by any call
+}
+
+// privateObj: an object allocated by this activation whose reference is never passed on or stored.
+type privateObj struct {
+	ref   string
+	heaps []string
 }
 
 type deferredCall struct {
@@ -420,6 +427,14 @@ func (fx *FnExec) havocHeap(name string) {
 	n := fx.freshName(name + "_h")
 	fx.emit("(declare-const %s %s)", n, sort)
 	fx.cur.heap[name] = n
+	// objects that never escaped this activation cannot be written by anybody else
+	for _, po := range fx.private {
+		for _, h := range po.heaps {
+			if h == name {
+				fx.assumeGlobal("(= (select " + n + " " + po.ref + ") (select " + before + " " + po.ref + "))")
+			}
+		}
+	}
 	// rely conditions: what every function of the package guarantees about this heap (each
 	// guarantee is itself an obligation of the family that installs it)
 	if r, ok := fx.rely[name]; ok {
